@@ -220,6 +220,9 @@ def main():
     stamp = "/tmp/mut/base.head"
     if not (os.path.exists(stamp) and open(stamp).read().strip() == head):
         sh(f"rm -rf {base} && mkdir -p {base} && git -C /repo archive HEAD | tar -x -C {base} && cp /repo/Cargo.lock {base}/")
+        # a mutant may hang a test of the suite: such a test is terminated and counts as failed
+        os.makedirs(f"{base}/.config", exist_ok=True)
+        open(f"{base}/.config/nextest.toml", "w").write('[profile.default]\nslow-timeout = { period = "60s", terminate-after = 3 }\n')
         sh("cargo nextest run --workspace --no-fail-fast --offline --test-threads 8 2>&1 | tail -2", cwd=base, timeout=3000)
         open(stamp, "w").write(head)
         sh("rm -rf /tmp/mut/w*")
